@@ -346,6 +346,10 @@ func spec_sent(i int) Token { panic("spec") }
 //@ loop 1: invariant wfL(l) && l.end >= old(l.end)
 //@ loop 0: invariant sent >= old(sent) && allTOKS(l, old(sent))
 //@ loop 1: invariant sent >= old(sent) && allTOKS(l, old(sent))
+// the unterminated-comment loop has no measure of its own (it never leaves at end of input), but it is PRODUCTIVE: every
+// iteration consumes input or hands an error token to the parser - so the parser, which stops at the first error token,
+// is never left waiting (generation ends; the lexer goroutine then blocks on its next send)
+//@ loop 1: end_of_body l.end > at_head(l.end) || sent > at_head(sent)
 
 //@ func ActionQuoteState
 //@ props C13
